@@ -91,6 +91,32 @@ def short_digest(obj):
 _SIM_DIR = os.path.dirname(os.path.abspath(__file__))
 
 
+_KNOWN = None
+
+
+def known_findings():
+    """known_findings.json (committed, never written at run time)."""
+    global _KNOWN
+    if _KNOWN is None:
+        path = os.path.join(os.path.dirname(_SIM_DIR), "known_findings.json")
+        _KNOWN = json.load(open(path)) if os.path.exists(path) else {"findings": [], "fixed": []}
+    return _KNOWN
+
+
+def match_known(violation, known=None):
+    """A finding matches a violation iff property and oracle are equal and every
+    listed detail key has the listed value: a different violation of the same
+    property is still reported."""
+    known = known if known is not None else known_findings()
+    for f in known.get("findings", []):
+        if f["property"] != violation["property"] or f["oracle"] != violation["oracle"]:
+            continue
+        det = violation.get("detail") or {}
+        if all(det.get(k) == v for k, v in (f.get("detail") or {}).items()):
+            return f
+    return None
+
+
 class _Sink:
     def write(self, s):
         return len(s)
@@ -112,6 +138,8 @@ class World:
     PROPS = ()
     # op kinds able to falsify each property (used for the non-triviality rule)
     FALSIFIERS = {}
+    # ops that only read the real objects: a sibling property failing there does not end the run
+    READ_ONLY_OPS = ()
 
     def __init__(self, cfg):
         self.cfg = cfg
@@ -159,6 +187,20 @@ class World:
              "expected": expected, "observed": observed, "step": self.step_index}
         if detail:
             v["detail"] = detail
+        focus = self.cfg.get("focus")
+        if focus and prop != focus and self.cur is not None and self.cur.get("op") in self.READ_ONLY_OPS:
+            # a sibling property failed on a read-only query: model and real objects are still in
+            # step, so the run goes on and the focus property keeps being judged; the sibling's
+            # own check reports it
+            self.stats["foreign:%s:%s" % (prop, oracle)] += 1
+            self.note("foreign property=%s oracle=%s: %s" % (prop, oracle, message))
+            return
+        f = match_known(v)
+        if f is not None:
+            # a recorded finding: counted, printed by the check as KNOWN-FINDING, and the run
+            # goes on (a user who catches the exception keeps working in the same process)
+            self.stats["known_finding:" + f["id"]] += 1
+            return
         self.violations.append(v)
 
     def note(self, text):
